@@ -156,7 +156,9 @@ def programs(draw, base):
     # the new parameters are declared as size parameters (dispersible) or as plain numbers; the volumes and
     # the effective radius still come from the base model's size parameters either way
     new_type = draw(st.sampled_from(["volume", "volume", ""]))
-    return {"base": base, "replaced": replaced, "new": news, "new_default": ndef, "lines": lines, "text": text,
+    # given a name of its own, or left with the default name that every reparameterisation of this base shares
+    named = draw(st.booleans())
+    return {"named": named, "base": base, "replaced": replaced, "new": news, "new_default": ndef, "lines": lines, "text": text,
             "insert_after": insert_after, "nvars": nvars, "invalid_class": invalid_class, "new_type": new_type}
 
 
@@ -217,7 +219,7 @@ def build(prog):
     if key not in _BUILT:
         pars = [[n, "Ang", prog["new_default"][n], [0, inf], prog.get("new_type", "volume"), "new parameter"]
                 for n in prog["new"]]
-        info = core.reparameterize(prog["base"], pars, prog["text"], name="rp_" + key,
+        info = core.reparameterize(prog["base"], pars, prog["text"], name=("rp_" + key) if prog.get("named", True) else None,
                                    insert_after=prog["insert_after"])
         _BUILT[key] = (info, core.build_model(info, dtype="double", platform="dll"))
     return _BUILT[key]
@@ -238,6 +240,8 @@ def check_reparam(case, rec):
         rec.cls("invalid-region-class")
     if prog.get("new_type", "volume") != "volume":
         rec.cls("new-parameters-not-size-typed")
+    if not prog.get("named", True):
+        rec.cls("default-model-name")
     if case["pd"]:
         rec.cls("dispersity-on-new")
     rec.nontrivial(prog["nvars"] >= 1 or len(prog["replaced"]) >= 2 or bool(case["pd"]),
